@@ -302,6 +302,8 @@ pub async fn run_scenario(sc: &Scenario, role: Role, rep: &mut Report) {
                 }
                 r
             }
+            // the endpoint closing the connection while the peer is still acting is a reaction
+            Err(e) if e.contains("closed by peer") || e.contains("connection lost") => observe(&live, None, 7).await,
             Err(e) => {
                 rep.inconclusive(format!("{cls}: raw action failed: {e}"));
                 live.shutdown();
